@@ -537,6 +537,10 @@ class Ctx:
             return ('bin', CMP_FNS[seg], self.expr_operand(args[0]), self.expr_operand(args[1]), 'other')
         if seg in ARITH_FNS and len(args) == 2 and ('ops::' in tr or 'ops::' in (c.path or '')):
             return ('bin', ARITH_FNS[seg], self.expr_operand(args[0]), self.expr_operand(args[1]), 'other')
+        if seg in ('duration_since', 'saturating_duration_since', 'checked_duration_since') and len(args) == 2:
+            return ('bin', 'Sub', self.expr_operand(args[0]), self.expr_operand(args[1]), 'other')
+        if seg == 'elapsed' and len(args) == 1:
+            return ('bin', 'Sub', ('call', 'std::time::Instant::now', ()), self.expr_operand(args[0]), 'other')
         if seg in ('min', 'max') and len(args) == 2:
             return (seg, (self.expr_operand(args[0]), self.expr_operand(args[1])))
         if seg == 'not' and len(args) == 1 and 'ops::' in tr:
@@ -1088,8 +1092,8 @@ class Guards:
         cfg = self.cfg
         # not loop carried: no definition block may be reachable from another definition block
         for b in blocks:
-            r = cfg.reachable_after(b)
-            if any(o in r for o in blocks):
+            r = self._forward_dag(b)
+            if any(o in r for o in blocks if o != b):
                 return None
         out = []
         for kind, d in ds:
@@ -1101,6 +1105,19 @@ class Guards:
                 return None
             out.append((d.bb, v))
         return out
+
+    def _forward_dag(self, b):
+        """blocks reachable from b without taking a back edge (within one loop iteration)"""
+        seen = set()
+        st = [b]
+        while st:
+            x = st.pop()
+            for s2 in self.cfg.succ[x]:
+                if (x, s2) in self._back or s2 in seen:
+                    continue
+                seen.add(s2)
+                st.append(s2)
+        return seen
 
     def cond_dnf(self, e, pol, _depth=0):
         v = first_var(e)
